@@ -262,73 +262,75 @@ func c14(ctx *Ctx) (*Outcome, error) {
 	}
 	cfg := &sem.Config{Prop: "C14", Tier: ctx.Tier, Seed: ctx.Seed, Cases: cases, Classes: docgen.Classes{"delopt": true, "required": true, "type": true}, Valid: 5, PerSite: 2, MaxDocs: 60,
 		Env: ctx.Env, Values: true, RootTypeFromOutput: true}
-	rep, err := sem.Run(cfg)
-	if err != nil {
-		return nil, err
-	}
 	// AST census: field names distinct per struct, every tag key carries exactly the property name
 	fieldsSeen, tagBad := 0, 0
 	var cviol []Viol
-	for _, c := range cases {
-		p := sem.ProgramOf(c)
-		if p == nil || !p.Usable() || c.Witness != "" {
-			continue
-		}
-		names := map[string]bool{}
-		c.Root.Walk(func(x *sg.Schema) {
-			for _, pr := range x.Props {
-				names[pr.Name] = true
+	cfg.AfterBatch = func(cases []*sem.Case) {
+		for _, c := range cases {
+			p := sem.ProgramOf(c)
+			if p == nil || !p.Usable() || c.Witness != "" {
+				continue
 			}
-		})
-		ast.Inspect(p.Report.File, func(nd ast.Node) bool {
-			st, ok := nd.(*ast.StructType)
-			if !ok {
-				return true
-			}
-			seen := map[string]bool{}
-			for _, fl := range st.Fields.List {
-				for _, nm := range fl.Names {
-					fieldsSeen++
-					msg := ""
-					if seen[nm.Name] {
-						msg = "duplicate field " + nm.Name
-					}
-					seen[nm.Name] = true
-					if !token.IsIdentifier(nm.Name) || !ast.IsExported(nm.Name) {
-						msg = fmt.Sprintf("field %q is not a valid exported identifier", nm.Name)
-					}
-					if fl.Tag != nil && msg == "" {
-						tag := strings.Trim(fl.Tag.Value, "`")
-						if tag != `mapstructure:",remain"` {
-							for _, m := range reTag.FindAllStringSubmatch(tag, -1) {
-								val := strings.TrimSuffix(m[2], ",omitempty")
-								if !names[val] {
-									msg = fmt.Sprintf("field %s: tag %s:%q names no property of the schema", nm.Name, m[1], m[2])
+			names := map[string]bool{}
+			c.Root.Walk(func(x *sg.Schema) {
+				for _, pr := range x.Props {
+					names[pr.Name] = true
+				}
+			})
+			ast.Inspect(p.Report.File, func(nd ast.Node) bool {
+				st, ok := nd.(*ast.StructType)
+				if !ok {
+					return true
+				}
+				seen := map[string]bool{}
+				for _, fl := range st.Fields.List {
+					for _, nm := range fl.Names {
+						fieldsSeen++
+						msg := ""
+						if seen[nm.Name] {
+							msg = "duplicate field " + nm.Name
+						}
+						seen[nm.Name] = true
+						if !token.IsIdentifier(nm.Name) || !ast.IsExported(nm.Name) {
+							msg = fmt.Sprintf("field %q is not a valid exported identifier", nm.Name)
+						}
+						if fl.Tag != nil && msg == "" {
+							tag := strings.Trim(fl.Tag.Value, "`")
+							if tag != `mapstructure:",remain"` {
+								for _, m := range reTag.FindAllStringSubmatch(tag, -1) {
+									val := strings.TrimSuffix(m[2], ",omitempty")
+									if !names[val] {
+										msg = fmt.Sprintf("field %s: tag %s:%q names no property of the schema", nm.Name, m[1], m[2])
+									}
 								}
 							}
 						}
-					}
-					if msg != "" {
-						tagBad++
-						if len(cviol) < 5 {
-							b, _ := json.MarshalIndent(map[string]any{"property": "C14", "kind": "ast-census", "problem": msg, "schema": json.RawMessage(jsonx.Marshal(c.Root.ToJSON())), "args": c.Args, "emitted": string(p.Src)}, "", " ")
-							path := filepath.Join(evid.ReplayDir(), fmt.Sprintf("C14-census-%d.json", len(cviol)))
-							_ = os.WriteFile(path, b, 0o644)
-							cviol = append(cviol, Viol{Replay: path, Summary: "AST census: " + msg})
+						if msg != "" {
+							tagBad++
+							if len(cviol) < 5 {
+								b, _ := json.MarshalIndent(map[string]any{"property": "C14", "kind": "ast-census", "problem": msg, "schema": json.RawMessage(jsonx.Marshal(c.Root.ToJSON())), "args": c.Args, "emitted": string(p.Src)}, "", " ")
+								path := filepath.Join(evid.ReplayDir(), fmt.Sprintf("C14-census-%d.json", len(cviol)))
+								_ = os.WriteFile(path, b, 0o644)
+								cviol = append(cviol, Viol{Replay: path, Summary: "AST census: " + msg})
+							}
 						}
 					}
 				}
-			}
-			return true
-		})
-		for _, tn := range gocheck.TypeNames(p.Report.File) {
-			if !token.IsIdentifier(tn) || !ast.IsExported(tn) {
-				tagBad++
-				if len(cviol) < 5 {
-					cviol = append(cviol, Viol{Replay: p.Dir, Summary: fmt.Sprintf("AST census: type name %q is not a valid exported identifier", tn)})
+				return true
+			})
+			for _, tn := range gocheck.TypeNames(p.Report.File) {
+				if !token.IsIdentifier(tn) || !ast.IsExported(tn) {
+					tagBad++
+					if len(cviol) < 5 {
+						cviol = append(cviol, Viol{Replay: p.Dir, Summary: fmt.Sprintf("AST census: type name %q is not a valid exported identifier", tn)})
+					}
 				}
 			}
 		}
+	}
+	rep, err := sem.Run(cfg)
+	if err != nil {
+		return nil, err
 	}
 	o := FromSem(ctx, rep, "(a) the real Identifierize / IdentifierFromFileName called on every string of length <= 3 (thorough 4) over one representative per character class (lower, upper, title-case, caseless, modifier letter, uncased-to-upper lower, ASCII and non-ASCII decimal digit, other numeral, letter-number, separators, symbols, '*', non-BMP letter and symbol, combining mark) x capitalization lists (incl. lower-case-initial entries), plus file names with resolve extensions: result must be a valid exported Go identifier (exhaustive for that abstraction); (b) generated code for sibling sets, definition names, titles and file names that collide after normalisation: go/ast census (fields distinct and exported, every tag key carries exactly a property name of the schema) and binding round trip (documents with a value per key must come back with each value under its own key, verdicts as the model says)",
 		2000, commonAssumptions)
